@@ -131,7 +131,8 @@ pub fn invoke_forced(world: World, spec: InvSpec, tape: OwnedTape, forced: Optio
     }
     if world.disk.manifest != "build.ninja" {
         args.push("-f".into());
-        args.push(world.disk.manifest.clone());
+        // the manifest is a path given on the command line like any target: any spelling names the same node
+        args.push(respell(&world.disk.manifest, spec.spell));
     }
     args.push("-j".into());
     args.push(spec.j.to_string());
@@ -748,6 +749,9 @@ pub fn judge(inv: &mut Inv, prev_clean: Option<&BTreeSet<usize>>, prev_failed: &
                 let regen_dirty = proj.steps.iter().any(|s| s.regen);
                 if regen_dirty {
                     push(&mut v, "C17", "stale-manifest-success", "n2 exited 0 although the manifest's generator inputs changed and it was not regenerated".into());
+                    if proj.manifest != "build.ninja" && spec.spell % 4 != 0 {
+                        push(&mut v, "C13", "manifest-flag-spelling", format!("-f {} : the manifest's own build statement was not brought up to date (n2 exited 0 with stale generator inputs)", respell(&proj.manifest, spec.spell)));
+                    }
                 }
             }
             // C02: every wanted command step is up to date and holds what a clean build would produce
